@@ -254,12 +254,12 @@ def _vars(t, acc=None):
 
 def _cfg_witness(tier):
     looks = [-20.0, 20.0, 45.0, 55.0] if tier == 'quick' else [-55.0, -45.0, -20.0, -5.0, 5.0, 20.0, 30.0, 45.0, 50.0, 55.0, 59.0]
-    return [{'look_deg': l, 'dist_yd': d, 'wind': w} for l in looks for d, w in ((300.0, 'none'), (100.0, 'left'))]
+    return [{'look_deg': l, 'dist_yd': d, 'wind': w} for l in looks for d, w in ((300.0, 'none'), (100.0, 'left'), (300.0, 'head_then_tail'), (250.0, 'tail_then_head'))]
 
 
 @harness('C02.witness', 'C02', configs=_cfg_witness, functions=FUNCS, must_reach=['check:public_api_hits_point_of_aim'],
          bounds='TEST STRENGTH (concrete replay of the geometry / contraction findings through the public API, not a solver claim): carrier A zeroed with '
-                'the default solver at look angles in {-20, 20, 45, 55} deg (thorough: 11 angles) x {300 yd no wind, 100 yd cross wind}; the row at the zero '
+                'the default solver at look angles in {-20, 20, 45, 55} deg (thorough: 11 angles) x {300 yd no wind, 100 yd cross wind, 300 / 250 yd with two head/tail wind segments whose boundary lies short of the target}; the row at the zero '
                 'look-distance of a subsequent fire lies within accuracy + one step * relative slope of the sight line')
 def c02_witness(ctx, look_deg, dist_yd, wind):
     from harness import carriers
